@@ -148,7 +148,15 @@ class Terms(object):
                 return ("map", elt, it, conds)
             return ("opaque", key(e))
         if isinstance(e, ast.JoinedStr):
-            return ("opaque", key(e))
+            parts = []
+            for v in e.values:
+                if isinstance(v, ast.Constant) and isinstance(v.value, str):
+                    parts.append(C(v.value))
+                elif isinstance(v, ast.FormattedValue) and v.conversion == -1 and v.format_spec is None:
+                    parts.append(("STR", self.term(func, node, v.value, env, depth)))
+                else:
+                    return ("opaque", key(e))
+            return self.concat(parts) if parts else C("")
         return ("opaque", key(e))
 
     def cond_key(self, func, node, test, env, depth):
@@ -455,6 +463,8 @@ class Terms(object):
             name = f.id
         # builtins with meaning
         ext = cs.ext if cs is not None else None
+        if cs is None and isinstance(f, (ast.Name, ast.Attribute)):
+            ext = ctx.cg.ext_name(func.mod, f, func)        # synthetic call (e.g. unwrapped run_in_executor)
         if ext is None and isinstance(f, ast.Name) and (cs is None or not cs.callees):
             import builtins as _b
             if f.id in env:
@@ -479,6 +489,8 @@ class Terms(object):
             a = args[0]
             if a[0] == "map" and a[1] == ("call", "builtins.ord", (("p", "\0elt"),), ()) and not a[3]:
                 return ("ORDSUM", a[2])
+            while a[0] == "call" and a[1] in ("builtins.bytearray", "builtins.bytes", "builtins.memoryview") and len(a[2]) == 1 and not a[3]:
+                a = a[2][0]       # summing a bytes-like copy is summing the bytes
             return ("BYTESUM", a)
         if ext in ("builtins.int", "builtins.bytes", "builtins.bytearray", "builtins.str", "builtins.bool") and len(args) == 1 and not kws:
             return ("call", ext, tuple(args), ())
@@ -519,6 +531,9 @@ class Terms(object):
                 return ("JOIN", recv, args[0])
             if f.attr in ("encode", "decode"):
                 return ("call", "." + f.attr, (recv,) + tuple(args), kws)
+            # pass-through stream wrapper of the async module: its methods are the wrapped object's methods
+            if cs is not None and cs.callees and all(c_.cls is not None and c_.cls.name == "_AsyncBytesIO" for c_ in cs.callees):
+                return ("call", "." + f.attr, (recv,) + tuple(args), kws)
             # package method: inline
             if cs is not None and len(cs.callees) == 1 and depth < self.max_depth:
                 callee = cs.callees[0]
@@ -531,6 +546,8 @@ class Terms(object):
                     self._defaults(callee, b)
                     return self.inline_return(callee, b, depth + 1)
             nm = ext or ("." + f.attr)
+            if cs is not None and len(cs.callees) > 1:
+                return ("call", "." + f.attr, (recv,) + tuple(args), kws)      # polymorphic receiver: identified by method name
             if cs is not None and cs.callees:
                 nm = "|".join(sorted(c.qualname for c in cs.callees))
                 return ("call", nm, (recv,) + tuple(args), kws)
